@@ -29,6 +29,9 @@ def run(F, X, rep):
     H.r1_rewrite(C, rep, "C13-R1")
     H.r2_order_preserving_removal(C, rep, "C13-R2")
     H.g1_lookup_by_type(C, rep, "C13-L")
+    # "without waiting on any external event": nothing between the node's request and the handler can queue behind other
+    # payments (no permit pool, no shared lock held across an await)
+    H.l2_no_shared_blocking_state(C, rep, "C13-W")
     bodies = p_c18.tlv_bodies(F)
     p_c18.c18_t1(F, X, rep, bodies)
     p_c18.c18_l1(F, X, rep, bodies)
